@@ -82,6 +82,19 @@ pub fn has_so3(spec: &SpaceSpec) -> bool {
     layout(spec).iter().any(|c| matches!(c, Comp::SO3))
 }
 
+/// max(1, largest metric weight of an SO(3) component)
+pub fn so3_weight_scale(spec: &SpaceSpec) -> f64 {
+    let lay = layout(spec);
+    let ws = comp_weights(spec);
+    let mut m: f64 = 1.0;
+    for (c, w) in lay.iter().zip(ws) {
+        if matches!(c, Comp::SO3) && w.is_finite() {
+            m = m.max(w);
+        }
+    }
+    m
+}
+
 pub fn kind_name(spec: &SpaceSpec) -> &'static str {
     match spec {
         SpaceSpec::RV { .. } => "RV",
@@ -389,10 +402,13 @@ pub trait Geo {
     /// validity of a flat state in world `w` (same function the planner's checker evaluates)
     fn valid(&self, w: usize, a: &[f64]) -> bool;
     fn set_worlds(&mut self, worlds: &[crate::spec::WorldSpec]);
-    /// relative / absolute tolerance for metric comparisons in this space
+    /// relative / absolute tolerance for metric comparisons in this space. SO(3) distances are
+    /// 2 acos(|dot|): near 0 they carry an absolute noise of about 2 sqrt(2 ulp) = 4e-8 rad, which
+    /// a compound weight w > 1 multiplies, so the absolute part scales with the largest weight
+    /// of an SO(3) component.
     fn eps(&self) -> (f64, f64) {
         if has_so3(self.spec()) {
-            (2e-4, 1e-7)
+            (2e-4, 1e-7 * so3_weight_scale(self.spec()))
         } else {
             (1e-9, 1e-9)
         }
@@ -400,7 +416,7 @@ pub trait Geo {
     /// |d(a,q)+d(q,b)-d(a,b)| small: q lies on the segment a→b
     fn on_segment(&self, a: &[f64], b: &[f64], q: &[f64], dab: f64) -> Option<f64> {
         let daq = self.d(a, q);
-        let tol = if has_so3(self.spec()) { 1e-6 } else { 1e-9 } * (1.0 + dab);
+        let tol = if has_so3(self.spec()) { 1e-6 * so3_weight_scale(self.spec()) } else { 1e-9 } * (1.0 + dab);
         if daq > dab + tol {
             return None;
         }
